@@ -299,3 +299,80 @@ pub enum AnchB {
     #[regex(r"end\z", priority = 8)]
     EndZ,
 }
+
+// ---- pair 5: hand-written `Logos` impls over a `String` source -------------------------------------
+// The derive pins `Source` to `str` or `[u8]`; the library's blanket `impl<T: Deref> Source for T` is public API all the
+// same, and only reachable this way. The lexers use nothing but the public `Lexer` API.
+
+#[derive(Debug, Clone, PartialEq)]
+pub enum ManA {
+    Word,
+    Digits(usize),
+    Hash,
+    Other(char),
+}
+
+#[derive(Debug, Clone, PartialEq)]
+pub enum ManB {
+    Char(char),
+    Line,
+}
+
+impl<'s> Logos<'s> for ManA {
+    type Error = LexErr;
+    type Extras = ExA;
+    type Source = String;
+
+    fn lex(lex: &mut Lexer<'s, Self>) -> Option<Result<Self, LexErr>> {
+        // skip blanks, then one token; in prefix mode a run that reaches the end of the buffer is not final
+        let rem: &str = lex.remainder();
+        let blanks = rem.len() - rem.trim_start_matches(' ').len();
+        if blanks > 0 {
+            lex.bump(blanks);
+            // start the token after the blanks: a new `next()` would do the same, so model it as one call
+            let _ = lex.span();
+        }
+        let rem: &str = lex.remainder();
+        let c = rem.chars().next()?;
+        let run = |pred: fn(char) -> bool| rem.len() - rem.trim_start_matches(pred).len();
+        if c.is_alphabetic() {
+            lex.bump(run(char::is_alphabetic));
+            lex.extras.count += 1;
+            Some(Ok(ManA::Word))
+        } else if c.is_ascii_digit() {
+            let n = run(|c| c.is_ascii_digit());
+            lex.bump(n);
+            Some(Ok(ManA::Digits(n)))
+        } else if c == '#' {
+            lex.bump(1);
+            bump_request(lex);
+            Some(Ok(ManA::Hash))
+        } else if c == '!' {
+            lex.bump(1);
+            Some(Err(LexErr::Bang))
+        } else {
+            lex.bump(c.len_utf8());
+            Some(Ok(ManA::Other(c)))
+        }
+    }
+}
+
+impl<'s> Logos<'s> for ManB {
+    type Error = LexErr;
+    type Extras = ExB;
+    type Source = String;
+
+    fn lex(lex: &mut Lexer<'s, Self>) -> Option<Result<Self, LexErr>> {
+        let rem: &str = lex.remainder();
+        let c = rem.chars().next()?;
+        if c == '/' {
+            let n = rem.find('\n').map(|i| i + 1).unwrap_or(rem.len());
+            lex.bump(n);
+            lex.extras.count += 10;
+            Some(Ok(ManB::Line))
+        } else {
+            lex.bump(c.len_utf8());
+            Some(Ok(ManB::Char(c)))
+        }
+    }
+}
